@@ -384,11 +384,25 @@ fn downstream_streams(steps: &[Step], si: usize, out: Option<usize>) -> BTreeSet
 pub fn c20(sc: &Scenario, rr: &RunResult) -> Vec<Violation> {
     let mut out = vec![];
     let Some((pid, coord, nth)) = rr.rec.crash_site else {
-        // the chosen site was never reached: an ordinary run
+        // the chosen site was never reached: an ordinary run (a streaming job received elements
+        // the plan does not list: only its termination is checked)
+        if sc.stream_until_failure {
+            return crate::oracle::termination_as("C20", sc, rr).into_iter().filter(|v| v.class != "C20/__inconclusive").collect();
+        }
         return c_generic("C20", sc, rr);
     };
     let where_ = rr.meta.iter().find(|m| m.id == pid).map(|m| format!("probe {} (step {:?}, {})", pid, m.path, m.pos)).unwrap_or_default();
     let site = format!("user function panicked at {} on replica {:?} at its element #{}", where_, coord, nth);
+    // a streaming job: the failure must be reported while the input keeps flowing, not only once
+    // the stream is closed
+    if let Some(n) = rr.rec.stream_gave_up {
+        out.push(viol(
+            "C20",
+            "failure-not-reported-while-streaming",
+            format!("{}: {} further elements were fed to the source over {} ms afterwards and no host's execute_blocking failed; the failure surfaced only after the input was closed", site, n, n * 2),
+        ));
+        return out;
+    }
     // all other workers unwind instead of blocking forever
     match rr.outcome.verdict {
         Verdict::Completed => {}
@@ -477,6 +491,10 @@ pub fn c20(sc: &Scenario, rr: &RunResult) -> Vec<Violation> {
             }
         }
         sid += 1;
+    }
+    if sc.stream_until_failure {
+        // the extra elements of a streaming job are not part of the plan: no reference result
+        return out;
     }
     // sinks on other branches: nothing, or the complete and correct result
     let mut partial = reference;
